@@ -10,7 +10,7 @@ namespace Rv.Props.C08
 open Rv Rv.Headers
 
 /-- the hop-by-hop list of the CURRENT source. -/
-def hop : List Str := Rv.Generated.hopHeaders.map String.toList
+def hop : List Str := (Rv.Generated.hopHeaders.map String.toList).map canonKey   -- as `http.Header.Del` sees the names
 
 /-- the source's list is the RFC 9110 §7.6.1 list the property refers to. -/
 theorem hop_list_is_standard :
